@@ -5,8 +5,8 @@
 From Ferrous Require Import Base.Bytes Generated Model.Resp Model.Types Model.Glob Model.Strings
   Model.Lists Model.ZSets Model.Streams Model.Scan Model.Lua Model.Server Model.Conn Model.Blocking Model.Aof
   Proofs.BytesFacts Proofs.RespFacts Proofs.StringsFacts Proofs.ListsFacts Proofs.ServerFacts
-  Proofs.ConnFacts Proofs.GroupFacts.
-From Coq Require Import ZifyBool.
+  Proofs.ConnFacts Proofs.StreamFacts Proofs.GroupFacts.
+From Coq Require Import ZifyBool Permutation.
 Open Scope Z_scope.
 
 (** ================= 1. the file is a sequence of whole frames ================= *)
@@ -1298,6 +1298,8 @@ Qed.
 Lemma filter_all {A} (p : A -> bool) l : forallb p l = true -> filter p l = l.
 Proof. induction l as [|x l IH]; [reflexivity|]. cbn [forallb filter]. intros H. apply andb_prop in H as [H1 H2]. rewrite H1, IH; auto. Qed.
 
+Lemma run_trace_cons t x tr st : run_trace ((t, x) :: tr) st = run_trace tr (xstep t st x).
+Proof. reflexivity. Qed.
 (** the log after a trace: the records of its commands, oldest first *)
 Lemma run_trace_recs : forall tr dbs log,
   forallb (fun x => item_ok (snd x)) tr = true ->
@@ -1307,8 +1309,8 @@ Proof.
   induction tr as [|[t x] tr IH]; intros dbs log Hok; [cbn; rewrite app_nil_r; auto|].
   cbn [forallb snd] in Hok. apply andb_prop in Hok as [H1 H2].
   assert (Hd : db_ok (x_db x)) by (unfold item_ok in H1; unfold db_ok; lia).
-  unfold run_trace. cbn [fold_left fst snd]. fold (run_trace tr).
-  unfold xstep at 1. cbn [fst snd].
+  rewrite run_trace_cons.
+  change (xstep t (dbs, log) x) with (xstep_dbs t dbs x, push_recs log (x_db x) (xrecs t dbs x)).
   destruct (push_recs_rev (xrecs t dbs x) log (x_db x) (xrecs_plain t dbs x) Hd) as [A B].
   destruct (IH (xstep_dbs t dbs x) (push_recs log (x_db x) (xrecs t dbs x)) H2) as [I1 I2]. split.
   - rewrite I1, A, B. cbn [trecs]. rewrite !map_app, map_map. cbn [fst]. rewrite map_id, xorecs_fst.
@@ -1344,14 +1346,14 @@ Qed.
 Lemma run_trace_dbs : forall tr dbs log log', fst (run_trace tr (dbs, log)) = fst (run_trace tr (dbs, log')).
 Proof.
   induction tr as [|[t x] tr IH]; intros dbs log log'; [reflexivity|].
-  unfold run_trace. cbn [fold_left fst snd]. fold (run_trace tr). unfold xstep. cbn [fst snd]. apply IH.
+  rewrite !run_trace_cons. unfold xstep. cbn [fst snd]. apply IH.
 Qed.
 Fixpoint trace_dbs (tr : list titem) (dbs : list db) : list db :=
   match tr with [] => dbs | (t, x) :: r => trace_dbs r (xstep_dbs t dbs x) end.
 Lemma run_trace_fst : forall tr dbs log, fst (run_trace tr (dbs, log)) = trace_dbs tr dbs.
 Proof.
   induction tr as [|[t x] tr IH]; intros dbs log; [reflexivity|].
-  unfold run_trace. cbn [fold_left fst snd trace_dbs]. fold (run_trace tr). unfold xstep. cbn [fst snd]. apply IH.
+  rewrite run_trace_cons. cbn [trace_dbs]. unfold xstep. cbn [fst snd]. apply IH.
 Qed.
 
 (** ---- the redo of a list of records, as a function of (selected database, databases) ---- *)
@@ -1373,10 +1375,11 @@ Proof.
   - pose proof (nc_dbs now R replay_conn (c_db cn) p o) as Hd.
     destruct (nc_conn now R replay_conn (c_db cn) p o cn Hp Hc) as (Hp' & (cn' & Hc' & Hdb' & _) & _).
     set (R1 := snd (normal_command now R replay_conn (c_db cn) p o)) in *.
-    assert (E : replay_from now R ((p, o) :: log) = replay_from now R1 log).
-    { unfold replay_from. cbn [fold_left]. unfold replay_step at 2. cbn [fst snd].
-      unfold conn_db. rewrite Hc. reflexivity. }
-    rewrite E. etransitivity; [apply (IH R1 cn' Hp' Hc')|].
+    assert (E : replay_step now R (p, o) = R1).
+    { unfold replay_step. cbn [fst snd]. unfold conn_db. rewrite Hc. reflexivity. }
+    unfold replay_from. cbn [fold_left]. rewrite E.
+    change (fold_left (replay_step now) log R1) with (replay_from now R1 log).
+    etransitivity; [apply (IH R1 cn' Hp' Hc')|].
     unfold redo. cbn [fold_left]. unfold redo_step at 2. cbn [fst snd]. rewrite Hdb', Hd. reflexivity.
 Qed.
 Lemma replay_redo now log :
@@ -1437,7 +1440,7 @@ Proof.
   cbn [along] in Hal. destruct Hal as (HQ & HP & Hal).
   cbn [trace_dbs trecs]. destruct (xorecs t d1 x) as [|r0 rs] eqn:Ers.
   - (* no record *)
-    cbn [sel_recs map app next_last]. apply IH; auto. apply (quiet_rel t x d1 d2 HQ HP HR Ers).
+    cbn [sel_recs map app next_last]. apply IH; auto; apply (quiet_rel t x d1 d2 HQ HP HR Ers).
   - rewrite <- Ers. rewrite !redo_app.
     assert (Sel : exists d2', redo now' (map (fun p => (p, None)) (sel_recs last (x_db x) (xorecs t d1 x))) (cur, d2) = (x_db x, d2') /\ Rl d1 d2').
     { rewrite Ers. cbn [sel_recs]. destruct (same_db last (x_db x)) eqn:Es.
@@ -1450,4 +1453,493 @@ Proof.
     apply IH; auto. rewrite Ers. cbn [next_last]. intros n Hn. inversion Hn; reflexivity.
 Qed.
 End TraceRel.
+
+(** ================= 6. what the records of an outcome do ================= *)
+(** two databases that answer every lookup alike (the order of the keys - a HashMap order in the
+    implementation - and the sweeper's index are left out) *)
+Definition ext (d1 d2 : db) : Prop := forall k, get_entry d1 k = get_entry d2 k.
+Lemma ext_refl d : ext d d. Proof. intros k; reflexivity. Qed.
+Lemma ext_sym a b : ext a b -> ext b a. Proof. intros H k; symmetry; apply H. Qed.
+Lemma ext_trans a b c : ext a b -> ext b c -> ext a c. Proof. intros H1 H2 k; rewrite H1; apply H2. Qed.
+Lemma ext_put_same d k e : get_entry d k = Some e -> ext (put_entry d k e) d.
+Proof.
+  intros H k'. destruct (beq k' k) eqn:E.
+  - apply beq_eq in E. subst. rewrite get_entry_put_same. symmetry; exact H.
+  - apply get_entry_put_other; exact E.
+Qed.
+
+(** ---- SPOP is the SREM of the members it returned ---- *)
+Lemma bremove_notin m s : bmem m s = false -> bremove m s = s.
+Proof.
+  induction s as [|x s IH]; [reflexivity|]. cbn [bmem bremove]. intros H. apply orb_false_iff in H as [H1 H2].
+  rewrite H1, IH by exact H2. reflexivity.
+Qed.
+Lemma bremove_comm a b s : bremove a (bremove b s) = bremove b (bremove a s).
+Proof.
+  induction s as [|x s IH]; [reflexivity|]. cbn [bremove].
+  destruct (beq b x) eqn:Eb; destruct (beq a x) eqn:Ea; cbn [bremove]; rewrite ?Eb, ?Ea, IH; reflexivity.
+Qed.
+Lemma remove_all_cons x xs s : remove_all (x :: xs) s = remove_all xs (bremove x s).
+Proof. reflexivity. Qed.
+Lemma remove_all_bremove xs : forall x s, remove_all xs (bremove x s) = bremove x (remove_all xs s).
+Proof.
+  induction xs as [|y xs IH]; intros x s; [reflexivity|].
+  rewrite !remove_all_cons, bremove_comm. apply IH.
+Qed.
+Lemma remove_all_perm xs ys : Permutation xs ys -> forall s, remove_all xs s = remove_all ys s.
+Proof.
+  induction 1; intros s.
+  - reflexivity.
+  - rewrite !remove_all_cons. apply IHPermutation.
+  - rewrite !remove_all_cons, bremove_comm. reflexivity.
+  - rewrite IHPermutation1. apply IHPermutation2.
+Qed.
+Lemma srem_loop_remove_all : forall ms s n, fst (srem_loop s ms n) = remove_all ms s.
+Proof.
+  induction ms as [|m ms IH]; intros s n; [reflexivity|]. cbn [srem_loop]. rewrite remove_all_cons.
+  destruct (bmem m s) eqn:E; [apply IH|]. rewrite (bremove_notin m s E). apply IH.
+Qed.
+Lemma only_bulks_map l : only_bulks (map FBulk l) = l.
+Proof. induction l as [|x l IH]; [reflexivity|]. cbn [map only_bulks]. rewrite IH. reflexivity. Qed.
+Lemma nth_arg_bulk parts i k : nth_arg parts i = Some k -> nth_error parts i = Some (FBulk k).
+Proof. unfold nth_arg. destruct (nth_error parts i) as [[]|]; try discriminate. cbn. intros H; inversion H; reflexivity. Qed.
+
+Definition upd_of (s' : list bytes) : upd := match s' with [] => Del | b :: l => Put (VSet (b :: l)) end.
+(** the record of an SPOP, given the frame of its key *)
+Definition spop_rec (kf r : frame) : option (list frame) :=
+  match r with
+  | FBulk _ => Some [FBulk (bs "SREM"); kf; r]
+  | FArray (m :: ms) => Some (FBulk (bs "SREM") :: kf :: m :: ms)
+  | _ => None
+  end.
+Lemma spop_form parts r :
+  deterministic_form (bs "SPOP") parts r = match nth_error parts 1 with Some kf => spop_rec kf r | None => None end.
+Proof.
+  unfold deterministic_form, spop_rec. change (beq (bs "SPOP") (bs "SPOP")) with true. cbv iota.
+  destruct (nth_error parts 1); [|reflexivity]. destruct r; try reflexivity; try (destruct l; reflexivity).
+Qed.
+Lemma e_spop_cases single c o cur r u : e_spop single c o cur = (r, u) ->
+  (u = Keep /\ forall kf, spop_rec kf r = None) \/
+  (exists s xs, cur = Some (VSet s) /\ u = upd_of (remove_all xs s) /\
+     ((single = true /\ exists m, xs = [m] /\ r = FBulk m) \/ (single = false /\ r = FArray (map FBulk (bsort xs))))).
+Proof.
+  unfold e_spop. intros H.
+  destruct cur as [[ | |s| | | ]|]; try (left; inversion H; subst; split; [reflexivity|intros kf; destruct single; reflexivity]).
+  destruct s as [|s0 s1]; [left; inversion H; subst; split; [reflexivity|intros kf; destruct single; reflexivity]|].
+  destruct (if single then oracle_bulk o else oracle_bulks o) as [xs|] eqn:Eo;
+    [|left; inversion H; subst; split; [reflexivity|intros kf; reflexivity]].
+  destruct (pick_distinct_ok (s0 :: s1) (Z.min c (len (s0 :: s1))) xs);
+    [|left; inversion H; subst; split; [reflexivity|intros kf; reflexivity]].
+  right. exists (s0 :: s1), xs. inversion H; subst. split; [reflexivity|]. split; [reflexivity|].
+  destruct single.
+  - left. split; [reflexivity|]. unfold oracle_bulk in Eo. destruct o as [[]|]; try discriminate.
+    inversion Eo; subst. exists b. split; reflexivity.
+  - right. split; reflexivity.
+Qed.
+Lemma e_srem_set ms s : snd (e_srem ms (Some (VSet s))) = upd_of (remove_all ms s).
+Proof.
+  unfold e_srem. rewrite <- (srem_loop_remove_all ms s 0). destruct (srem_loop s ms 0) as [s' n]. cbn [fst snd].
+  destruct s'; reflexivity.
+Qed.
+Lemma on_key_snd d k f : snd (on_key d k f) = apply_upd d k (get_entry d k) (snd (f (option_map e_val (get_entry d k)))).
+Proof. unfold on_key. destruct (f (option_map e_val (get_entry d k))). reflexivity. Qed.
+
+(** the spop part of h_spop: either refused at once, or the engine's spop on the key *)
+Lemma h_spop_cases d parts o r d' : h_spop d parts o = (r, d') ->
+  (is_err r = true /\ d' = d) \/
+  (exists k single c, nth_error parts 1 = Some (FBulk k) /\ on_key d k (e_spop single c o) = (r, d')).
+Proof.
+  unfold h_spop. intros H.
+  destruct ((nparts parts <? 2) || (3 <? nparts parts)); [left; inversion H; auto|].
+  destruct (key_of parts) as [k|] eqn:Ek; [|left; inversion H; auto]. apply nth_arg_bulk in Ek.
+  destruct (nparts parts =? 3).
+  - destruct (nth_arg parts 2); [|left; inversion H; auto].
+    destruct (parse_usize b); [|left; inversion H; auto].
+    right. exists k, false, z. auto.
+  - right. exists k, true, 1. auto.
+Qed.
+Lemma len3 {A} (a b c : A) l : len (a :: b :: c :: l) <? 3 = false.
+Proof. rewrite !len_cons. pose proof (len_nonneg l). lia. Qed.
+
+(** SPOP answered with members: the SREM record does to the database what the SPOP did *)
+Lemma spop_as_srem d parts o r d' p :
+  h_spop d parts o = (r, d') -> deterministic_form (bs "SPOP") parts r = Some p ->
+  snd (h_skipping e_srem d p) = d'.
+Proof.
+  intros H Hf. rewrite spop_form in Hf.
+  destruct (h_spop_cases d parts o r d' H) as [[He _]|(k & single & c & Hk & Hon)].
+  - destruct (nth_error parts 1); [|discriminate]. destruct r; discriminate.
+  - rewrite Hk in Hf.
+    pose proof (on_key_snd d k (e_spop single c o)) as Hs. rewrite Hon in Hs. cbn [snd] in Hs.
+    destruct (e_spop single c o (option_map e_val (get_entry d k))) as [r0 u] eqn:Es.
+    assert (r0 = r) by (unfold on_key in Hon; rewrite Es in Hon; inversion Hon; reflexivity). subst r0.
+    cbn [snd] in Hs.
+    destruct (e_spop_cases _ _ _ _ _ _ Es) as [[_ Hn]|(s & xs & Hc & Hu & Hr)]; [rewrite Hn in Hf; discriminate|].
+    destruct Hr as [(-> & m & -> & ->)|(-> & ->)].
+    + cbn [spop_rec] in Hf. inversion Hf; subst p. unfold h_skipping, nparts. rewrite len3.
+      cbn [key_of nth_arg nth_error arg_bytes skipn only_bulks].
+      rewrite on_key_snd, Hc, e_srem_set, Hs, Hu. reflexivity.
+    + cbn [spop_rec] in Hf. destruct (map FBulk (bsort xs)) as [|m ms] eqn:Em; [discriminate|].
+      inversion Hf; subst p. unfold h_skipping. unfold nparts. rewrite len3.
+      cbn [key_of nth_arg nth_error arg_bytes skipn].
+      rewrite <- Em, only_bulks_map, on_key_snd, Hc, e_srem_set, Hs, Hu.
+      rewrite (remove_all_perm _ _ (bsort_perm xs)). reflexivity.
+Qed.
+(** SPOP answered with nothing: nothing changed (the set of a `SPOP key 0` is stored again as it was) *)
+Lemma spop_quiet d parts o r d' :
+  h_spop d parts o = (r, d') -> deterministic_form (bs "SPOP") parts r = None -> ext d' d.
+Proof.
+  intros H Hf. rewrite spop_form in Hf.
+  destruct (h_spop_cases d parts o r d' H) as [[_ ->]|(k & single & c & Hk & Hon)]; [apply ext_refl|].
+  rewrite Hk in Hf.
+  pose proof (on_key_snd d k (e_spop single c o)) as Hs. rewrite Hon in Hs. cbn [snd] in Hs.
+  destruct (e_spop single c o (option_map e_val (get_entry d k))) as [r0 u] eqn:Es.
+  assert (r0 = r) by (unfold on_key in Hon; rewrite Es in Hon; inversion Hon; reflexivity). subst r0.
+  cbn [snd] in Hs. subst d'.
+  destruct (e_spop_cases _ _ _ _ _ _ Es) as [[-> _]|(s & xs & Hc & Hu & Hr)]; [apply ext_refl|].
+  destruct Hr as [(-> & m & -> & ->)|(-> & ->)]; [discriminate Hf|].
+  cbn [spop_rec] in Hf. destruct (bsort xs) as [|m ms] eqn:Eb; [|discriminate Hf].
+  assert (xs = []) by (pose proof (bsort_perm xs) as Hp; rewrite Eb in Hp; apply Permutation_nil in Hp; exact Hp).
+  subst xs u. cbn [remove_all fold_left].
+  destruct (get_entry d k) as [e|] eqn:Ee; [|discriminate Hc]. cbn [option_map] in Hc. inversion Hc as [Hv].
+  destruct s as [|s0 s1]; cbn [upd_of apply_upd].
+  - (* an empty stored set does not reach this branch *)
+    exfalso. unfold e_spop in Es. cbn [option_map] in Es. rewrite Hv in Es. inversion Es.
+  - apply ext_put_same. rewrite Ee. destruct e as [v x]. cbn [e_val e_exp] in *. subst v. reflexivity.
+Qed.
+
+(** ---- XADD with the ID * is the XADD of the ID it generated ---- *)
+Lemma digits_val_ge : forall l a v, 0 <= a -> Forall (fun c => is_digit c = true) l ->
+  digits_val l a = Some v -> a <= v.
+Proof.
+  induction l as [|c r IH]; intros a v Ha Hd H; cbn [digits_val] in H; [inversion H; lia|].
+  inversion Hd as [|? ? Hc Hr]; subst. rewrite Hc in H. unfold is_digit in Hc.
+  specialize (IH (a * 10 + (c - 48)) v). assert (0 <= a * 10 + (c - 48)) by lia. specialize (IH H0 Hr H). lia.
+Qed.
+Lemma parse_fast_digits : forall l a v, 0 <= a -> Forall (fun c => is_digit c = true) l ->
+  digits_val l a = Some v -> v < two64 -> parse_u64_fast l a = Some v.
+Proof.
+  induction l as [|c r IH]; intros a v Ha Hd H Hv; cbn [digits_val parse_u64_fast] in *; [exact H|].
+  inversion Hd as [|? ? Hc Hr]; subst. rewrite Hc in *. pose proof Hc as Hc'. unfold is_digit in Hc'.
+  assert (H0 : 0 <= a * 10 + (c - 48)) by lia.
+  pose proof (digits_val_ge r _ v H0 Hr H) as Hle.
+  rewrite Z.mod_small by lia. apply IH; auto.
+Qed.
+Lemma parse_fast_range : forall l a v, 0 <= a < two64 -> parse_u64_fast l a = Some v -> 0 <= v < two64.
+Proof.
+  induction l as [|c r IH]; intros a v Ha H; cbn [parse_u64_fast] in H; [inversion H; subst; exact Ha|].
+  destruct (is_digit c); [|discriminate]. eapply IH; [|exact H]. apply Z.mod_pos_bound. reflexivity.
+Qed.
+Lemma parse_fast_print n : 0 <= n < two64 -> parse_u64_fast (print_nat n) 0 = Some n.
+Proof.
+  intros H. assert (H40 : 0 <= n < 10 ^ 40) by (unfold two64 in H; lia).
+  destruct (print_nat_spec n H40) as [Hp Hd]. destruct (print_nat_head n H40) as (c & r & Hc & _).
+  unfold parse_digits in Hp. rewrite Hc in Hp. rewrite <- Hc in Hp.
+  apply parse_fast_digits; [lia|exact Hd|exact Hp|lia].
+Qed.
+Lemma split_dash_digits : forall a b, Forall (fun c => is_digit c = true) a ->
+  split_dash (a ++ 45 :: b) = Some (a, b).
+Proof.
+  induction a as [|c a IH]; intros b Hd; [reflexivity|]. inversion Hd as [|? ? Hc Hr]; subst.
+  cbn [app split_dash]. unfold is_digit in Hc. replace (c =? 45) with false by lia. rewrite IH by exact Hr. reflexivity.
+Qed.
+Lemma sid_text_roundtrip i : 0 <= fst i < two64 -> 0 <= snd i < two64 -> sid_of_bytes (sid_to_bytes i) = Some i.
+Proof.
+  intros H1 H2. unfold sid_of_bytes, sid_to_bytes. cbn [app].
+  assert (H40 : 0 <= fst i < 10 ^ 40) by (unfold two64 in H1; lia).
+  rewrite split_dash_digits by (apply (print_nat_spec _ H40)).
+  rewrite !parse_fast_print by assumption. destruct i; reflexivity.
+Qed.
+Lemma sid_text_not_star i : 0 <= fst i < two64 -> beq (sid_to_bytes i) (bs "*") = false.
+Proof.
+  intros H1. assert (H40 : 0 <= fst i < 10 ^ 40) by (unfold two64 in H1; lia).
+  destruct (print_nat_head _ H40) as (c & r & Hc & Hd). unfold sid_to_bytes. rewrite Hc. cbn [app].
+  unfold is_digit in Hd. match goal with |- ?b = false => destruct b eqn:E end; [|reflexivity].
+  apply beq_eq in E. inversion E. lia.
+Qed.
+Lemma oracle_sid_range o oid : oracle_sid o = Some oid -> 0 <= fst oid < two64 /\ 0 <= snd oid < two64.
+Proof.
+  unfold oracle_sid, sid_of_bytes. destruct o as [[]|]; try discriminate.
+  destruct (split_dash b) as [[x y]|]; [|discriminate].
+  destruct (parse_u64_fast x 0) as [ms|] eqn:E1; [|discriminate]. destruct (parse_u64_fast y 0) as [sq|] eqn:E2; [|discriminate].
+  intros H; inversion H; subst. cbn [fst snd]. split; eapply parse_fast_range; eauto; unfold two64; lia.
+Qed.
+
+(** the stream under the key satisfies the stream invariant of Proofs/StreamFacts.v (C15) *)
+Definition stream_fit (d : db) (k : bytes) : Prop :=
+  match raw_stream d k with SStream _ s => SInv s /\ in_u64 (s_last s) | _ => True end.
+Lemma st_auto_as_explicit s f n id s' : SInv s -> in_u64 (s_last s) ->
+  st_add_auto n s f = Some (id, s') ->
+  st_add_with_id s id f = Some s' /\ (fst id =? 0) && (snd id =? 0) = false.
+Proof.
+  intros Hi Hu H. unfold st_add_auto in H. destruct (gen_next n s) as [[[i ms] sq]|] eqn:E; [|discriminate].
+  inversion H; subst. destruct (gen_next_gt n s id ms sq Hi E) as [Hlt ->]. split.
+  - unfold st_add_with_id. replace (sid_leb (ms, sq) (s_last s)) with false by (symmetry; apply sid_leb_nle; exact Hlt).
+    rewrite (has_id_above s (ms, sq) Hi Hlt). reflexivity.
+  - destruct Hu as [[U1 _] [U2 _]]. unfold sid_lt in Hlt. cbn [fst snd] in *. lia.
+Qed.
+
+Lemma xadd_form parts r :
+  deterministic_form (bs "XADD") parts r =
+  match parts, r with a :: b :: _ :: rest, FBulk _ => Some (a :: b :: r :: rest) | _, _ => None end.
+Proof. unfold deterministic_form. change (beq (bs "XADD") (bs "SPOP")) with false. reflexivity. Qed.
+
+Lemma xadd_auto_cases d parts o r d' :
+  by_outcome (bs "XADD") parts = true -> h_xadd d parts o = (r, d') ->
+  (is_err r = true /\ d' = d) \/
+  (exists a k rest f e s n id s',
+     parts = a :: FBulk k :: FBulk (bs "*") :: rest /\ ((nparts parts <? 4) || negb ((nparts parts - 3) mod 2 =? 0)) = false /\
+     parse_fields rest [] = Some f /\
+     (raw_stream d k = SStream e s \/ (raw_stream d k = SMissing /\ e = new_entry empty_stream /\ s = empty_stream)) /\
+     (exists oid, oracle_sid o = Some oid /\ auto_clock s oid = Some n) /\
+     st_add_auto n s f = Some (id, s') /\ r = r_sid id /\ d' = put_stream d k e s').
+Proof.
+  unfold by_outcome. change (beq (bs "XADD") (bs "SPOP")) with false. change (beq (bs "XADD") (bs "XADD")) with true. cbn [orb andb].
+  intros Hb H. unfold h_xadd in H.
+  destruct ((nparts parts <? 4) || negb ((nparts parts - 3) mod 2 =? 0)) eqn:Eg; [left; inversion H; auto|].
+  destruct parts as [|a [|b [|c rest]]]; try discriminate Hb. cbn [nth_error] in Hb, H.
+  destruct c; try discriminate Hb. apply beq_eq in Hb. subst b0.
+  destruct b; try (left; inversion H; auto; fail). cbn [arg_bytes] in H.
+  change (skipn 3 (a :: FBulk b :: FBulk (bs "*") :: rest)) with rest in H.
+  destruct (parse_fields rest []) as [f|] eqn:Ef; [|left; inversion H; auto].
+  change (beq (bs "*") (bs "*")) with true in H. cbv iota in H.
+  assert (G : forall e s, (match oracle_sid o with
+            | None => if (u64_max <? s_aseq s + 1) && (u64_max <? s_ams s + 1) then (r_err, d) else (FError (bs "NOORACLE"), d)
+            | Some oid => match auto_clock s oid with
+                          | None => (FError (bs "BADAUTOID"), d)
+                          | Some now_ms => match st_add_auto now_ms s f with
+                                           | Some (id, s') => (r_sid id, put_stream d b e s')
+                                           | None => (r_err, d)
+                                           end
+                          end
+            end) = (r, d') ->
+            (is_err r = true /\ d' = d) \/
+            (exists n id s', (exists oid, oracle_sid o = Some oid /\ auto_clock s oid = Some n) /\
+                             st_add_auto n s f = Some (id, s') /\ r = r_sid id /\ d' = put_stream d b e s')).
+  { intros e s G. destruct (oracle_sid o) as [oid|] eqn:Eo.
+    - destruct (auto_clock s oid) as [n|] eqn:Ea; [|left; inversion G; auto].
+      destruct (st_add_auto n s f) as [[id s']|] eqn:Es; [|left; inversion G; auto].
+      right. exists n, id, s'. inversion G; subst. eauto 10.
+    - left. destruct ((u64_max <? s_aseq s + 1) && (u64_max <? s_ams s + 1)); inversion G; auto. }
+  destruct (raw_stream d b) as [e s| |] eqn:Er.
+  - destruct (G e s H) as [L|(n & id & s' & Ho & Hs & -> & ->)]; [left; exact L|].
+    right. exists a, b, rest, f, e, s, n, id, s'. repeat split; auto.
+  - destruct (G (new_entry empty_stream) empty_stream H) as [L|(n & id & s' & Ho & Hs & -> & ->)]; [left; exact L|].
+    right. exists a, b, rest, f, (new_entry empty_stream), empty_stream, n, id, s'. repeat split; auto.
+  - left. inversion H; auto.
+Qed.
+
+(** XADD * answered with an ID: the XADD of that ID does to the database what the XADD * did *)
+Lemma xadd_auto_as_explicit d parts o r d' p :
+  by_outcome (bs "XADD") parts = true ->
+  (forall k, nth_error parts 1 = Some (FBulk k) -> stream_fit d k) ->
+  h_xadd d parts o = (r, d') -> deterministic_form (bs "XADD") parts r = Some p ->
+  snd (h_xadd d p None) = d'.
+Proof.
+  intros Hb Hfit H Hf. rewrite xadd_form in Hf.
+  destruct (xadd_auto_cases d parts o r d' Hb H) as [[He _]|(a & k & rest & f & e & s & n & id & s' & -> & Eg & Ef & Er & (oid & Eo & Ea) & Es & -> & ->)].
+  - destruct parts as [|? [|? [|? ?]]]; try discriminate. destruct r; discriminate.
+  - cbn [r_sid] in Hf. inversion Hf; subst p. clear Hf.
+    specialize (Hfit k eq_refl). unfold stream_fit in Hfit.
+    destruct (auto_clock_sound s oid n Ea) as (ms & sq & Eg2).
+    assert (id = oid) by (unfold st_add_auto in Es; rewrite Eg2 in Es; inversion Es; reflexivity). subst id.
+    destruct (oracle_sid_range o oid Eo) as [R1 R2].
+    assert (Hinv : SInv s /\ in_u64 (s_last s)).
+    { destruct Er as [Er|(Er & _ & ->)]; rewrite Er in Hfit; [exact Hfit|].
+      split; [apply SInv_empty|]. unfold in_u64, empty_stream, sid_zero. cbn. unfold u64_max. lia. }
+    destruct (st_auto_as_explicit s f n oid s' (proj1 Hinv) (proj2 Hinv) Es) as [Ew Ez].
+    unfold h_xadd, r_sid.
+    replace (nparts (a :: FBulk k :: FBulk (sid_to_bytes oid) :: rest)) with (nparts (a :: FBulk k :: FBulk (bs "*") :: rest))
+      by (unfold nparts; rewrite !len_cons; reflexivity).
+    rewrite Eg. cbn [nth_error arg_bytes].
+    change (skipn 3 (a :: FBulk k :: FBulk (sid_to_bytes oid) :: rest)) with rest. rewrite Ef.
+    rewrite (sid_text_not_star oid R1), (sid_text_roundtrip oid R1 R2), Ez.
+    destruct Er as [Er|(Er & -> & ->)]; rewrite Er, Ew; reflexivity.
+Qed.
+(** XADD * refused: nothing changed *)
+Lemma xadd_quiet d parts o r d' :
+  by_outcome (bs "XADD") parts = true -> h_xadd d parts o = (r, d') ->
+  deterministic_form (bs "XADD") parts r = None -> d' = d.
+Proof.
+  intros Hb H Hf. rewrite xadd_form in Hf.
+  destruct (xadd_auto_cases d parts o r d' Hb H) as [[_ ->]|(a & k & rest & f & e & s & n & id & s' & -> & _ & _ & _ & _ & _ & -> & _)];
+    [reflexivity|discriminate Hf].
+Qed.
+
+(** ================= 7. the replay theorem, one clock reading ================= *)
+(** Every command that is logged as it was sent and leaves no other record - this includes EVAL
+    and the consumer-group commands, whose effect depends on the clock - redone at the clock
+    reading of the live run: the databases are EQUAL.  (Commands logged by outcome and commands
+    followed by a deadline record are the subject of Proofs/AofTimeFacts.v, at any later clock
+    reading.) *)
+Definition item_name (x : item) : bytes := match x_parts x with FBulk nm :: _ => upper nm | _ => [] end.
+Definition plain_item (now : Z) (dbs : list db) (tx : titem) : bool :=
+  (fst tx =? now) && negb (by_outcome (item_name (snd tx)) (x_parts (snd tx)))
+  && match xout_recs now dbs (snd tx) with [] => true | _ => false end.
+Fixpoint plain_run (now : Z) (tr : list titem) (dbs : list db) : bool :=
+  match tr with
+  | [] => fresh_all now dbs
+  | tx :: r => fresh_all now dbs && plain_item now dbs tx && plain_run now r (xstep_dbs (fst tx) dbs (snd tx))
+  end.
+
+Lemma dstep_is_step now dbs dbi parts o : lfresh_all now dbs -> dstep_dbs now dbs dbi parts o = step_dbs now dbs dbi parts o.
+Proof.
+  intros F. unfold step_dbs. destruct parts as [|[] rest]; try reflexivity. rewrite pre_dbs_fresh by exact F. reflexivity.
+Qed.
+Lemma xstep_is_step now dbs x : lfresh_all now dbs -> xstep_dbs now dbs x = step_dbs now dbs (x_db x) (x_parts x) (x_or x).
+Proof. intros F. unfold xstep_dbs. destruct (x_lazy x); [reflexivity|apply dstep_is_step; exact F]. Qed.
+(** EVALSHA is in the table but never written as it was sent: in this model (no script cache
+    behind process_normal_command) it changes nothing *)
+Lemma evalsha_inert now dbs dbi parts o nm rest :
+  parts = FBulk nm :: rest -> upper nm = bs "EVALSHA" -> lfresh_all now dbs -> step_dbs now dbs dbi parts o = dbs.
+Proof.
+  intros -> Hn F. unfold step_dbs. rewrite pre_dbs_fresh by exact F. unfold dstep_dbs. rewrite Hn.
+  change (beq (bs "EVALSHA") (bs "PING")) with false. change (beq (bs "EVALSHA") (bs "ECHO")) with false.
+  change (beq (bs "EVALSHA") (bs "SELECT")) with false. change (beq (bs "EVALSHA") (bs "FLUSHALL")) with false.
+  change (beq (bs "EVALSHA") (bs "RANDOMKEY")) with false. change (beq (bs "EVALSHA") (bs "AUTH")) with false.
+  change (beq (bs "EVALSHA") (bs "QUIT")) with false. change (beq (bs "EVALSHA") (bs "VERIF")) with false. cbv iota.
+  replace (exec_db now (nth (Z.to_nat dbi) dbs empty_db) (bs "EVALSHA") (FBulk nm :: rest) o)
+    with (Some (FError (bs "UNMODELLED"), nth (Z.to_nat dbi) dbs empty_db)) by reflexivity.
+  apply list_set_nth_same.
+Qed.
+(** a command that is neither written as sent nor by outcome changes nothing *)
+Lemma unrecorded_inert now dbs dbi parts o :
+  verb_recs parts = [] -> by_outcome (match parts with FBulk nm :: _ => upper nm | _ => [] end) parts = false ->
+  lfresh_all now dbs -> step_dbs now dbs dbi parts o = dbs.
+Proof.
+  intros Hv Hb F. destruct (is_write parts) eqn:W; [|apply step_dbs_unlogged; assumption].
+  destruct parts as [|[] rest]; try discriminate W. unfold verb_recs in Hv. unfold is_write, mem_name in W.
+  destruct (logs_before (upper b) (FBulk b :: rest)) eqn:L; [discriminate Hv|].
+  unfold logs_before in L. rewrite W, Hb in L. cbn [andb negb] in L. apply negb_false_iff in L. apply beq_eq in L.
+  eapply evalsha_inert; eauto.
+Qed.
+
+Lemma plain_run_along now : forall tr dbs, plain_run now tr dbs = true ->
+  along (fun d => lfresh_all now d) (fun tx d => plain_item now d tx = true) tr dbs.
+Proof.
+  induction tr as [|[t x] tr IH]; intros dbs H; cbn [plain_run along] in *.
+  - apply fresh_lfresh_all; exact H.
+  - apply andb_prop in H as [H H3]. apply andb_prop in H as [H1 H2].
+    split; [apply fresh_lfresh_all; exact H1|]. split; [exact H2|]. apply IH. exact H3.
+Qed.
+
+Theorem trace_redo_eq now : forall tr dbs,
+  forallb (fun x => item_ok (snd x)) tr = true -> plain_run now tr dbs = true ->
+  trace_dbs tr dbs = snd (redo now (trecs tr dbs None) (0, dbs)).
+Proof.
+  intros tr dbs Hok Hp.
+  apply (trace_redo_rel eq now (fun d => lfresh_all now d) (fun tx d => plain_item now d tx = true)); auto;
+    [| | |discriminate|apply plain_run_along; exact Hp].
+  - (* SELECT *)
+    intros d1 d2 cur dbi F <- Hd. symmetry. apply step_dbs_unlogged; [apply select_unwritten|exact F].
+  - (* the records of one command *)
+    intros t x d1 d2 F HP Hi <-. unfold plain_item in HP. cbn [fst snd] in HP.
+    apply andb_prop in HP as [HP H3]. apply andb_prop in HP as [H1 H2]. apply Z.eqb_eq in H1. subst t.
+    apply negb_true_iff in H2.
+    unfold xorecs. destruct (xout_recs now d1 x); [|discriminate H3]. cbn [map]. rewrite app_nil_r.
+    rewrite (xstep_is_step now d1 x F).
+    unfold verb_recs. destruct (x_parts x) as [|[] rest] eqn:Ep; cbn [map redo fold_left snd];
+      try (split; [reflexivity|]; apply (unrecorded_inert now d1 (x_db x) _ (x_or x)); [reflexivity| |exact F];
+           unfold item_name in H2; rewrite Ep in H2; exact H2).
+    destruct (logs_before (upper b) (FBulk b :: rest)) eqn:L; cbn [map redo fold_left snd].
+    + unfold redo_step. cbn [fst snd]. rewrite sel_db_written; [split; reflexivity|].
+      apply is_logged_write. exact L.
+    + split; [reflexivity|]. apply (unrecorded_inert now d1 (x_db x) _ (x_or x)); [|unfold item_name in H2; rewrite Ep in H2; exact H2|exact F].
+      unfold verb_recs. rewrite L. reflexivity.
+  - (* no record *)
+    intros t x d1 d2 F HP <- Hn. unfold plain_item in HP. cbn [fst snd] in HP.
+    apply andb_prop in HP as [HP H3]. apply andb_prop in HP as [H1 H2]. apply Z.eqb_eq in H1. subst t.
+    apply negb_true_iff in H2. rewrite (xstep_is_step now d1 x F).
+    apply unrecorded_inert; [|unfold item_name in H2; exact H2|exact F].
+    unfold xorecs in Hn. apply app_eq_nil in Hn as [Hn _]. destruct (verb_recs (x_parts x)); [reflexivity|discriminate Hn].
+Qed.
+
+(** THE REPLAY THEOREM, one clock reading: all sixteen databases of the redo equal those of the
+    live server *)
+Theorem replay_all_dbs now h :
+  forallb (fun te => ev_ok (snd te)) h = true ->
+  plain_run now (trace_of h) dbs0 = true ->
+  aof_log (run_tevs h) = map fst (trecs (trace_of h) dbs0 None) /\
+  s_dbs (replay_o now (trecs (trace_of h) dbs0 None)) = s_dbs (run_tevs h).
+Proof.
+  intros Hok Hp. split; [apply history_file; exact Hok|].
+  rewrite replay_redo, (history_dbs h Hok), run_trace_fst. symmetry.
+  apply trace_redo_eq; [|exact Hp].
+  exact (proj2 (history_is_trace h (init_server None) linv_init Hok)).
+Qed.
+(** when no event carries an oracle, the redo needs none either *)
+Lemma trecs_no_oracle : forall tr dbs last,
+  forallb (fun tx => match x_or (snd tx) with None => true | Some _ => false end) tr = true ->
+  trecs tr dbs last = no_oracle (map fst (trecs tr dbs last)).
+Proof.
+  induction tr as [|[t x] tr IH]; intros dbs last H; [reflexivity|].
+  cbn [forallb snd] in H. apply andb_prop in H as [H1 H2]. destruct (x_or x) eqn:Eo; [discriminate|].
+  cbn [trecs]. unfold no_oracle. rewrite !map_app, !map_map. cbn [fst].
+  f_equal. f_equal; [|rewrite (IH _ _ H2) at 1; unfold no_oracle; rewrite map_map; reflexivity].
+  unfold xorecs. rewrite Eo, !map_app, !map_map. reflexivity.
+Qed.
+
+(** ================= 8. blocking pops (Model/Blocking.v) ================= *)
+(** the pop a waiting client is served by a push (wake_client, delivery branch) is the event
+    [EServed]: one LPOP / RPOP record, at the moment the element leaves the list *)
+Lemma wake_client_served s b u v d' cst :
+  on_key (get_db s (u_db u)) (u_key u) (e_pop (u_left u)) = (FBulk v, d') ->
+  zlookup (u_conn u) (b_blk b) = Some cst ->
+  fst (wake_client s b u) = served_pop s (u_db u) (u_left u) (u_key u).
+Proof. intros H Hb. unfold wake_client, served_pop. rewrite H, Hb. reflexivity. Qed.
+
+(** no key holds an empty list (the engine removes a list when its last element goes) *)
+Definition no_empty_list (d : db) : Prop := forall k e, get_entry d k = Some e -> e_val e <> VList [].
+Lemma rev_nil_inv {A} (l : list A) : rev l = [] -> l = [].
+Proof. intros H. apply (f_equal (@rev A)) in H. rewrite rev_involutive in H. exact H. Qed.
+Lemma pop_try (lf : bool) d k : no_empty_list d ->
+  (exists v, fst (on_key d k (e_pop lf)) = FBulk v) \/
+  (snd (on_key d k (e_pop lf)) = d /\ forall v, fst (on_key d k (e_pop lf)) <> FBulk v).
+Proof.
+  intros Hn. unfold on_key. destruct (get_entry d k) as [e|] eqn:E; cbn [option_map e_pop].
+  - destruct (e_val e) as [ |l| | | | ] eqn:Ev; try (right; split; [reflexivity|intros v; discriminate]).
+    destruct l as [|x l]; [exfalso; exact (Hn k e E Ev)|].
+    destruct lf; [left; exists x; reflexivity|].
+    destruct (rev (x :: l)) as [|y r] eqn:Er; [apply rev_nil_inv in Er; discriminate|]. left; exists y; reflexivity.
+  - right. split; [reflexivity|intros v; discriminate].
+Qed.
+Lemma fast_path_cases (lf : bool) : forall keys d r d', no_empty_list d -> fast_path lf d keys = (r, d') ->
+  (exists k v, r = Some (FArray [FBulk k; FBulk v]) /\ on_key d k (e_pop lf) = (FBulk v, d')) \/
+  (d' = d /\ forall k v, r <> Some (FArray [FBulk k; FBulk v])).
+Proof.
+  induction keys as [|k0 keys IH]; intros d r d' Hn H; cbn [fast_path] in H.
+  - right. inversion H; subst. split; [reflexivity|intros; discriminate].
+  - destruct (pop_try lf d k0 Hn) as [[v Hv]|[Hs Hv]].
+    + destruct (on_key d k0 (e_pop lf)) as [r0 d0] eqn:E. cbn [fst] in Hv. subst r0.
+      inversion H; subst. left. exists k0, v. auto.
+    + destruct (on_key d k0 (e_pop lf)) as [r0 d0] eqn:E. cbn [fst snd] in *. subst d0.
+      destruct r0; try (apply IH; assumption).
+      * right. inversion H; subst. split; [reflexivity|intros; discriminate].
+      * exfalso. exact (Hv b eq_refl).
+Qed.
+(** BLPOP / BRPOP that finds an element (fast path of h_bpop): the same event, for the key that
+    served it; otherwise neither the databases nor the log change *)
+Theorem bpop_immediate (lf : bool) now s b c dbi parts oms :
+  no_empty_list (get_db s dbi) ->
+  let s' := snd (fst (h_bpop lf now s b c dbi parts oms)) in
+  (exists k v d', fst (fst (h_bpop lf now s b c dbi parts oms)) = FArray [FBulk k; FBulk v] /\
+                  on_key (get_db s dbi) k (e_pop lf) = (FBulk v, d') /\
+                  s' = served_pop s dbi lf k) \/
+  st_of s' = st_of s.
+Proof.
+  intros Hn. cbv zeta. unfold h_bpop.
+  destruct (len parts <? 3); [right; reflexivity|].
+  destruct (timeout_of (last parts FNull) oms) as [tmo|]; [|right; reflexivity].
+  destruct (all_bulks (removelast (tl parts))) as [keys|]; [|right; reflexivity].
+  destruct (fast_path lf (get_db s dbi) keys) as [r d'] eqn:E.
+  assert (Same : st_of (set_db s dbi (get_db s dbi)) = st_of s).
+  { unfold st_of, set_db, get_db. cbn [s_dbs s_aof]. rewrite list_set_nth_same. reflexivity. }
+  destruct (fast_path_cases lf keys _ _ _ Hn E) as [(k & v & -> & Ho)|[-> Hr]].
+  - left. exists k, v, d'. cbn [fst snd log_served]. unfold served_pop. rewrite Ho. auto.
+  - right. destruct r as [r|].
+    + cbn [fst snd]. unfold log_served.
+      repeat match goal with |- st_of (match ?v with _ => _ end) = _ => destruct v end; try exact Same.
+      exfalso. eapply Hr; reflexivity.
+    + destruct (c =? 0); [exact Same|]. cbn [fst snd]. exact Same.
+Qed.
 
